@@ -8,6 +8,7 @@ import core  # noqa: E402
 
 b = core.Build()
 seen = set()
+core.run_generators(core.driver_generators(), b)
 for p in sorted((Path(__file__).parent / "props").glob("c*.py")):
     mod = importlib.import_module(f"props.{p.stem}")
     for g in getattr(mod, "GENERATORS", ()):
